@@ -320,3 +320,81 @@ theorem normalizeInterCoef_value (hr0 : HeadRoom bits b 0 H) (rs : Nat) (off : I
 end
 
 end NormL
+
+namespace NormL
+
+/-- adding whole limbs to the offset only moves the limb offset -/
+theorem splitOffset_add_mul {b : Nat} (hb : 1 ≤ b) (off : Int) (g : Nat) :
+    splitOffset b (off + g * b) = ((splitOffset b off).1, (splitOffset b off).2 + g) := by
+  obtain ⟨h1, l1⟩ := splitOffset_spec hb off
+  obtain ⟨h2, l2⟩ := splitOffset_spec hb (off + g * b)
+  generalize splitOffset b off = s1 at h1 l1 ⊢
+  generalize splitOffset b (off + g * b) = s2 at h2 l2 ⊢
+  obtain ⟨r1, q1⟩ := s1
+  obtain ⟨r2, q2⟩ := s2
+  simp only at h1 l1 h2 l2 ⊢
+  have hbpos : (0 : Int) < b := by exact_mod_cast hb
+  have key : (q2 - q1 - g) * b = (r1 : Int) - r2 := by rw [h1] at h2; linarith
+  have hd : q2 - q1 - g = 0 := by
+    by_contra hne
+    rcases lt_or_gt_of_ne hne with h | h
+    · have : (q2 - q1 - g) * b ≤ -1 * b := mul_le_mul_of_nonneg_right (by omega) (le_of_lt hbpos)
+      omega
+    · have : 1 * (b : Int) ≤ (q2 - q1 - g) * b := mul_le_mul_of_nonneg_right (by omega) (le_of_lt hbpos)
+      omega
+  rw [hd] at key
+  have : r2 = r1 := by omega
+  have : q2 = q1 + g := by omega
+  simp [*]
+
+/-- **full statement for the proposed repair** (docs/C08.md): with the extra carry-only steps over
+the gap the same-radix normalisation satisfies the value theorem for *every* offset. -/
+theorem normalizeInterCoefRepaired_value {bits b : Nat} {H : Int} (hr0 : HeadRoom bits b 0 H)
+    (rs : Nat) (hrs : 1 ≤ rs) (off : Int) (a : List Int) (ha : ∀ x ∈ a, |x| ≤ H) :
+    (normalizeInterCoefRepaired bits b rs off a).length = rs ∧
+    (∀ d ∈ normalizeInterCoefRepaired bits b rs off a, Balanced b d) ∧
+    TorusNear (valI b (normalizeInterCoefRepaired bits b rs off a)) (b * rs)
+      (valI b a * 2 ^ off.toNat) (b * a.length + (-off).toNat) := by
+  have hb : 1 ≤ b := by have := hr0.hlsh; omega
+  unfold normalizeInterCoefRepaired
+  obtain ⟨hoff, hl⟩ := splitOffset_spec hb off
+  set lo := (splitOffset b off).2 with hlo
+  set lsh := (splitOffset b off).1 with hlsh
+  set gap := Int.toNat (-lo - rs) with hgap
+  have ha' : ∀ x ∈ List.replicate gap (0 : Int) ++ a, |x| ≤ H := by
+    intro x hx
+    rcases List.mem_append.mp hx with h | h
+    · rw [(List.mem_replicate.mp h).2]; simpa using hr0.hH0
+    · exact ha x h
+  have hng : -(splitOffset b (off + gap * b)).2 ≤ (rs : Int) := by
+    rw [splitOffset_add_mul hb]; simp only; omega
+  obtain ⟨h1, h2, h3, _⟩ := normalizeInterCoef_value hr0 rs (off + gap * b) _ ha' hng
+  refine ⟨h1, h2, ?_⟩
+  rw [valI_append, valI_replicate_zero, zero_mul, zero_add, List.length_append, List.length_replicate] at h3
+  by_cases hg : gap = 0
+  · rw [hg] at h3 ⊢
+    simpa using h3
+  · -- in the gap: off < 0 and the new offset is still ≤ 0
+    have hgb : ((gap * b : Nat) : Int) = (gap : Int) * b := by push_cast; ring
+    have hrb : (b : Int) * 1 ≤ b * rs := by
+      have : (1 : Int) ≤ rs := by exact_mod_cast hrs
+      exact mul_le_mul_of_nonneg_left this (by omega)
+    have hlob : lo * b + (gap : Int) * b = -((rs : Int) * b) := by
+      have : lo + gap = -(rs : Int) := by omega
+      rw [← add_mul, this]; ring
+    have hneg : off + gap * b ≤ 0 := by
+      have : (b : Int) * rs = rs * b := by ring
+      omega
+    have e1 : (off + (gap : Int) * b).toNat = 0 := by omega
+    have hoffneg : off ≤ 0 := by
+      have : (0 : Int) ≤ (gap : Int) * b := by positivity
+      omega
+    have e2 : off.toNat = 0 := by omega
+    have e3 : b * (gap + a.length) + (-(off + (gap : Int) * b)).toNat = b * a.length + (-off).toNat := by
+      have : b * (gap + a.length) = gap * b + b * a.length := by ring
+      omega
+    rw [e1, e3] at h3
+    rw [e2]
+    exact h3
+
+end NormL
